@@ -11,6 +11,21 @@ CHECKS = {
   "For every (path, document) of a pool covering all node kinds (plus generated paths), every entry point, both context errors, silent and verbose: the context reports done from the k-th poll, for every k in 0..n. Exhaustive in k; bounded in paths/documents.",
   "Trusts that the executor observes cancellation only through ctx.Done()/ctx.Err(); programs and documents outside the pool/generated space are not covered.",
   "DESIGN.md §3 C20"),
+ "C07": ("model_checking", "ref-conformance",
+  "bounded exhaustive enumeration of accessor/filter programs x documents against a reference interpreter (explicit program/state enumeration, no sampling)",
+  "Every chain of <=3 (thorough: 4 on a smaller universe) steps over a 27-step accessor/filter alphabet x every JSON document with <=4 (thorough 5) nodes over {null,1} x both modes x both number decodings, against the reference model: lax never errs and returns the reference items; strict errs suppressibly exactly when the reference's complete evaluation meets a structural mismatch.",
+  "Trusts the reference model (DESIGN.md Appendix A) and small-scope: chains, documents and subscript lists beyond the bounds are not covered.",
+  "DESIGN.md §3 C07"),
+ "C14": ("model_checking", "ref-conformance",
+  "bounded exhaustive enumeration of arrays x subscript lists against slice arithmetic (reference model)",
+  "All 781 arrays of length 0..4 over {null,1,\"a\",[2],{\"a\":3}} plus non-arrays x all single/range/list subscripts over bounds -2..6, fractions, last, last+-k, nested subscripts and every non-numeric / non-singleton / out-of-int32 subscript x modes x decodings x silent/verbose, compared with slice arithmetic written from the statement.",
+  "Arrays longer than 4 and lists longer than 2 (3 in thorough) subscripts are not covered; the subscript-drops-null defect is a recorded known finding.",
+  "DESIGN.md §3 C14"),
+ "C15": ("model_checking", "ref-conformance",
+  "bounded exhaustive enumeration of JSON trees x wildcard/recursive-descent bounds against an explicit tree walk",
+  "Every JSON tree with <=5 (thorough 7) nodes, leaves relabelled by pre-order index x .*, [*], .**{a to b} for all a,b in {0..4,last}, alone and followed by one more accessor x modes x decodings, compared with an explicit depth-annotated tree walk, plus .** == .**{0 to last} as a relation between real executions.",
+  "Trees beyond the node bound and level bounds beyond 4 are not covered; member order of multi-member objects compared as multisets.",
+  "DESIGN.md §3 C15"),
 }
 
 PENDING = {}
